@@ -6,6 +6,7 @@ import Ucan.Props.Tie.ChainProofs
 import Ucan.Props.Tie.ChainProofsExact
 import Ucan.Props.Tie.ChainArgs
 import Ucan.Props.Tie.ChainLoad
+import Ucan.Props.Tie.ChainLoadExact
 /-! (Not registered for any property: WHICH error a refused invocation gets is not part of one — `ChainAllowed` carries what the
 properties need.) Exact form of the tie for `executionAllowed` (C01–C05): the four stages run in the model's order and hand the loaded
 delegations from one to the next. `loadProofs` (it talks to the caller's loader), `ToIPLD` (the conversion of the caller's
